@@ -1,10 +1,12 @@
 (* C18 driver: reads
    "E <op> <kind> <otherdev> <srcmissing> <nonempty> <ok> <srcpresent> <srcorig> <dstorig> <thirdok> <size> <variant> ..."
-   Two copy strategies are modelled (write through the destination path / temporary file + rename over the
-   destination name). A run must agree with ONE of them throughout: the first case on which the two models
-   differ and the implementation agrees with exactly one decides; every case is then judged against that one.
-   The decision is printed as STATS strategy=... and written to <dir of cases>/strategy.txt for the in-Coq
-   cross-check. Result lines repeat the case line verbatim (details go to INFO lines). *)
+   Four model variants: copy strategy (write through the destination path / temporary file + rename over the
+   destination name) x alias policy (refuse / succeed without touching anything when the destination is the
+   source). A run must agree with ONE variant throughout: if some variant matches every case that satisfies the
+   specification, the first such variant (0 through+refuse, 1 replace+refuse, 2 through+noop, 3 replace+noop) is
+   the run's; otherwise the variant with the fewest disagreements, and the cases it does not match are MISMATCH.
+   The variant is printed in STATS and written to <dir of cases>/strategy.txt for the in-Coq cross-check.
+   Result lines repeat the case line verbatim (details go to INFO lines). *)
 let () =
   let lines = ref [] in
   iter_lines Sys.argv.(1) (fun line ->
@@ -15,25 +17,31 @@ let () =
         lines := (line, v, (n op, n kind, n od, n sm, n ne)) :: !lines
     | _ -> ());
   let all = List.rev !lines in
-  let strategy =
-    match List.find_opt (fun (_, v, _) -> v.spec && v.model_eq <> v.model_eq_replace) all with
-    | Some (_, v, _) -> if v.model_eq_replace then 1 else 0
-    | None -> 0 in
-  let decided = List.exists (fun (_, v, _) -> v.spec && v.model_eq <> v.model_eq_replace) all in
+  let misses = Array.make 4 0 in
+  List.iter (fun (_, v, _) ->
+    if v.spec then
+      for k = 0 to 3 do if not (matches (n_of_int k) v) then misses.(k) <- misses.(k) + 1 done) all;
+  let variant = ref 0 in
+  for k = 3 downto 0 do if misses.(k) <= misses.(!variant) then variant := k done;
+  let variant = !variant in
+  let consistent = List.filter (fun k -> misses.(k) = 0) [0; 1; 2; 3] in
   let cases = ref 0 and specfail = ref 0 and mismatch = ref 0 in
+  let name k = [| "through+refuse"; "replace+refuse"; "through+noop"; "replace+noop" |].(k) in
   List.iter (fun (line, v, (op, kind, od, sm, ne)) ->
     incr cases;
     if not v.spec then begin
       incr specfail; Printf.printf "SPECFAIL %s\n" line end
-    else if not (verdict_ok_for (n_of_int strategy) v) then begin
+    else if not (verdict_ok_for (n_of_int variant) v) then begin
       incr mismatch;
       Printf.printf "MISMATCH %s\n" line;
       let show s = String.concat "" (List.map (fun b -> if b then "1" else "0") (model_fields_for (n_of_int s) op kind od sm ne)) in
-      Printf.printf "INFO model(ok,srcpresent,srcorig,dstorig,third) through=%s replace=%s run-follows=%s for: %s\n"
-        (show 0) (show 1) (if strategy = 1 then "replace" else "through") line end) all;
+      Printf.printf "INFO model(ok,srcpresent,srcorig,dstorig,third) %s run-follows=%s for: %s\n"
+        (String.concat " " (List.map (fun k -> name k ^ "=" ^ show k) [0; 1; 2; 3])) (name variant) line end) all;
   (try
      let oc = open_out (Filename.concat (Filename.dirname Sys.argv.(1)) "strategy.txt") in
-     output_string oc (string_of_int strategy); close_out oc
+     output_string oc (string_of_int variant); close_out oc
    with _ -> ());
-  Printf.printf "STATS cases=%d specfail=%d mismatch=%d drift=0 strategy=%s strategy_decided_by_a_case=%b\n"
-    !cases !specfail !mismatch (if strategy = 1 then "replace" else "through") decided
+  Printf.printf "STATS cases=%d specfail=%d mismatch=%d drift=0 strategy=%s alias_policy=%s variants_consistent_with_every_case=%s\n"
+    !cases !specfail !mismatch
+    (if variant land 1 = 1 then "replace" else "through") (if variant >= 2 then "noop" else "refuse")
+    (if consistent = [] then "none" else String.concat "," (List.map name consistent))
